@@ -34,6 +34,12 @@ CLAIMS = {
  "C19": ("Theorems: refinement of the ticket queue to an abstract FIFO for every operation sequence whose pushes do not re-use a ticketed id (C19_refines/C19_history); for all sequences find/remove/len/is_empty/to_vec see exactly the queued orders; from_vec hands out in list order; decide'd counterexample for the stale-ticket re-push (known finding). "
          "Tie: E-seq on the exported OrderQueue, every answer compared with the model and judged against the abstract FIFO run by the driver.",
          "Lean 4 refinement proof + differential correspondence with Lean FIFO judge; known finding", "DESIGN §6 C19"),
+ "C10": ("Theorems: for every well-formed level (hence every state reachable by an admissible history) rebuilding from its own snapshot or by re-adding its listing yields the same price, the same orders (as a permutation / same lookup for every id), the same aggregates and a well-formed level; carried aggregates are ignored; the listing is a duplicate-free permutation of the map sorted by timestamp. "
+         "Tie: E-seq with seven constructor routes + lying data at random points of random histories; judged on the real crate. The byte-level codecs the routes pass through are C16/C17.",
+         "Lean 4 proof (permutation/sum lemmas over constructors) + differential correspondence with judge", "DESIGN §6 C10"),
+ "C11": ("The full property is false of the crate (known finding, Lean counterexample evaluated on the model and replayed on the crate). Proved: C11_partial — the restored level hands out its orders exactly in snapshot (timestamp) order, so it reproduces the original's order iff the original's hand-out order equals its listing. "
+         "Not proved: lifting to equal outputs for every continuation. Tie: E-seq with a forked real level restored from the snapshot and fed the same continuation; differences classified by the driver.",
+         "Lean 4 proof (partial) + counterexample by evaluation + differential correspondence on two real levels; known finding", "DESIGN §6 C11"),
 }
 PENDING = {
 }
